@@ -1562,6 +1562,8 @@ pub mod gen {
         let mut step = 0usize;
         let restart_run = forced.is_none() && rng.chance(1, 5);
         let mut restarted = false;
+        let claim_run = forced.is_none() && !restart_run && rng.chance(1, 4);
+        let mut claimed = false;
         while left.iter().any(|l| *l > 0) {
             // stray injection
             if rng.chance(1, 4) {
@@ -1603,6 +1605,35 @@ pub mod gen {
                     prio.push(rng.next());
                     used_fids.push(fid);
                     restarted = true;
+                }
+            }
+            // claim: a new PDU on a *different* id that shares the slot of a stream in flight. The old reassembly is
+            // legitimately replaced (its remaining packets become strays of an unknown id); the claimer must arrive.
+            if claim_run && !claimed && rng.chance(1, 3) {
+                let c: Vec<usize> = (0..left.len()).filter(|s| started[*s] && left[*s] > 0).collect();
+                if !c.is_empty() {
+                    let s = *rng.pick(&c);
+                    let mut fid = (streams[s].0 as usize % slots + slots * rng.usize_in(0, 255 / slots - 1)) as u8;
+                    let mut guard = 0;
+                    while used_fids.contains(&fid) && guard < 300 {
+                        fid = fid.wrapping_add(slots as u8);
+                        if fid as usize % slots != streams[s].0 as usize % slots {
+                            fid = (streams[s].0 as usize % slots) as u8;
+                        }
+                        guard += 1;
+                    }
+                    if !used_fids.contains(&fid) {
+                        let nfrag = rng.usize_in(2, 4);
+                        let len = rng.usize_in(nfrag * 2, 300);
+                        maxlen = maxlen.max(len);
+                        streams.push((fid, len, nfrag, label(rng, false), ptype(rng), rng.next()));
+                        left.push(nfrag);
+                        started.push(false);
+                        rem.push(len);
+                        prio.push(rng.next());
+                        used_fids.push(fid);
+                        claimed = true;
+                    }
                 }
             }
             // pick next stream
@@ -1654,7 +1685,9 @@ pub mod gen {
             }
             ops.push(Op::new("frame").u("pad", rng.range(0, 40)));
         }
-        Program { scenario: "flow", cfg: cfg(slots, maxlen + 50, slots + 2, mode, &ExtTable::default()), ops }
+        // storage: the maximum, or exactly one buffer per slot (free list empty while every slot is busy)
+        let nbuf = if rng.chance(1, 3) { slots } else { slots + 2 };
+        Program { scenario: "flow", cfg: cfg(slots, maxlen + 50, nbuf, mode, &ExtTable::default()), ops }
     }
 
     fn gen_c10(rng: &mut Rng) -> Program {
